@@ -16,6 +16,7 @@ dump; it is not yet a theorem there (`_partial`).
 import BRV.Proofs.RepoBasics
 import BRV.Proofs.RepoLookup
 import BRV.Proofs.RepoExample
+import BRV.Proofs.RepoStreamStep
 
 namespace BRV.Repo
 
@@ -199,6 +200,29 @@ theorem C09_previousHash_exact (r : Repo) (hr : RepoWF r) (id p : Nat) (h' : Int
     by ANY finite history of header submissions is well-formed, so the four theorems above apply to it. -/
 theorem C09_wf_submissions (r : Repo) (hs : List (Hdr × Bool)) (hr : RepoWF r) (hq : NoAutoClean r hs) :
     RepoWF (submitAll r hs) := repoWF_submitAll r hs hr hq
+
+/-- **C09 (every accepted header is known, at its height, for the rest of the session).** In a
+    history of submissions from genesis: a header that passed the checks at some point (was accepted
+    at height `ph + 1`) is reported by `HashHeight` with exactly that height after ANY further
+    submissions — it is never forgotten and its height never changes. -/
+theorem C09_accepted_stays_known (r : Repo) (h : Hdr) (ok : Bool) (hs : StreamWF r) (hlv : r.longest < r.arena.length)
+    (hnc : ∀ pb ph lst, precheck r h ok = .inr (pb, ph, lst) →
+      Int.tmod ((r.br pb).height + 1) (Facts.autoCleanModulus : Int) ≠ 0)
+    (pb : Nat) (ph : Int) (lst : HData) (hpc : precheck r h ok = .inr (pb, ph, lst))
+    (later : List (Hdr × Bool)) (hq : NoAutoClean (processHeader r h ok).1 later) :
+    hashHeight (submitAll (processHeader r h ok).1 later) h.id = some (ph + 1) := by
+  obtain ⟨⟨b1, hheld⟩, _⟩ := passed_then_held r h ok hs hlv hnc pb ph lst hpc
+  have hF := streamWF_processHeader r h ok hs hnc
+  have hend := streamWF_submitAll _ later hF hq
+  have hheld' := heldAt_submitAll _ later hq b1 h.id (ph + 1) hheld
+  have hsome := branchesFind_of_held _ hend.chain.wf.ids b1 h.id _ hheld'
+  obtain ⟨x, hx⟩ := Option.isSome_iff_exists.mp hsome
+  obtain ⟨bi, hh⟩ := x
+  have hown := branchesFind_owner _ hend.chain.wf.link hend.chain.wf.ids hend.chain.wf.list h.id bi hh hx
+  have := (heldAt_unique _ _ hend.chain.wf.ids bi b1 h.id hh (ph + 1) hown hheld').2
+  unfold hashHeight
+  rw [hx]
+  simp only [this]
 
 /-! ### non-vacuity -/
 
